@@ -75,10 +75,12 @@ func main() {
 			"counters motif|* = instances of dependent-load sequences with nothing but s_waitcnt / s_nop between a load's return and the next reader of the loaded register " +
 			"(scalar / vector pointer chasing through one register pair, destination overlapping the base partially, loaded register first consumed by compare+branch, by the next load's offset or scalar base, " +
 			"re-read of an operand across the return of a load into it) in programs whose comparison held; " +
+			"host|* = host-API shape of the host program of a compared program (through which driver contexts buffers are allocated / uploaded, kernels launched, results read back; two processes one after the other; re-upload between two kernels); " +
 			"motif|lds-read-before-write = LDS reads of words the work-group has not written (then written with non-zero data), in grids with more work-groups than compute units and in pairs of launches",
 		Assumptions: []string{
 			"generated programs are race-free by construction (every work-item owns its output slots and its LDS slot; LDS exchanges are fenced by s_barrier on both sides; loaded registers are consumed only after s_waitcnt covers them; non-zero vmcnt is relied upon for in-order return only for CDNA3 global_* loads)",
 			"operations a kernel leaves un-waited before s_endpgm (scalar / vector loads into registers that were dumped before, a store to a dword nothing reads, an LDS write) are legal: s_endpgm has to keep the wavefront's registers until they have returned; every kernel writes long-lived values into low and high SGPRs/VGPRs first and dumps them last, so that anything a retired wavefront left in flight shows in a recycled register slot",
+			"the host program is the same in both modes; contexts made with InitWithExistingPID share one address space, so allocating through one, launching through another and copying through a third is legal API use; every launch is drained before the next copy, every copy returns before the next launch",
 			"nothing is assumed about the contents of LDS words a work-group reads before writing them except that both modes agree (both give a work-group a zero-filled LDS on the unchanged tree); such reads touch only the work-item's own LDS locations",
 			"the pointer / index tables the dependent-load motifs walk are prepared by the host after allocation (device addresses are the same in both modes; checked), every address they hold is mapped, and no kernel writes them",
 			"a program whose two emulation runs differ, or that emulation cannot run, is a generator / workload problem (inconclusive), not a finding",
@@ -93,7 +95,9 @@ func main() {
 			"motif|vector-pointer-chase": int64(c.N(10, 40)), "motif|vector-chase-to-store": int64(c.N(10, 40)),
 			"motif|load-to-branch": int64(c.N(10, 40)), "motif|load-to-smem-offset": int64(c.N(10, 40)),
 			"motif|load-to-saddr": int64(c.N(5, 20)), "motif|reread-across-load-return": int64(c.N(10, 40)),
-			"motif|lds-read-before-write": int64(c.N(10, 40))},
+			"motif|lds-read-before-write": int64(c.N(10, 40)),
+			"host|one-context":            int64(c.N(50, 500)), "host|worker-launches-main-copies": int64(c.N(2, 10)), "host|main-launches-worker-copies": int64(c.N(2, 10)),
+			"host|three-sibling-contexts": int64(c.N(2, 10)), "host|two-processes": int64(c.N(2, 10)), "host|re-upload-between-kernels": int64(c.N(2, 10))},
 	})
 }
 
@@ -216,6 +220,26 @@ func probeSpec(arch, f string) ProgSpec {
 		allow = append(allow, "salu")
 	case "chase_v", "chase_v_st", "reread":
 		allow = append(allow, "diamond", "loop_uniform")
+	case "host_wl", "host_wc", "host_three", "host_alloc_other", "reup":
+		// two kernels, the second reads what the first stored; scalar and vector
+		// loads of TAB in both
+		allow = append(allow, "multi_kernel", "smem_x4", "smem_x2", "ld_x4", "st_x4")
+		force = append(force, "multi_kernel", "smem_x4")
+		if f == "host_alloc_other" {
+			force = append(force, "host_wl")
+		}
+		if f == "reup" {
+			force = append(force, "host_three")
+		}
+	case "host_2proc":
+		// 64 one-wavefront work-groups per process: the second process runs on
+		// compute units the first one has used, and (64 compute units in the
+		// emulation / r9nano GPU, round-robin dispatch that continues where the
+		// previous launch stopped) work-group j of both processes runs on the
+		// same compute unit; on the mi300a (120) the mapping is shifted
+		sp := ProgSpec{ID: "probe-" + arch + "-" + f, Arch: arch, Seed: hash64("C02/probe/" + f), Allow: append(allow, "smem_x4", "ld_x4", "st_x4"),
+			Force: []string{f, "smem_x4"}, Probe: f, Geo: &Launch{Grid: [3]uint32{64 * 16, 1, 1}, WG: [3]uint16{16, 1, 1}}}
+		return sp
 	case "lds_rbw":
 		// 256 one-wavefront work-groups (more than the 64 compute units of an
 		// emulation GPU, so that compute units run several groups one after
